@@ -75,21 +75,27 @@ __CPROVER_requires(g_ser_calls == 0 && g_hl_calls == 0 && g_mac_calls == 0 && g_
 __CPROVER_ensures(IMPLIES(t == NULL || t->ctx == NULL, __CPROVER_return_value == KSI_INVALID_ARGUMENT && g_mac_calls == 0)) \
 __CPROVER_ensures(IMPLIES(t != NULL && t->ctx != NULL && t->ctx->options[OPT] != KSI_PDU_VERSION_1 && t->ctx->options[OPT] != KSI_PDU_VERSION_2, \
 		__CPROVER_return_value == KSI_INVALID_FORMAT && g_mac_calls == 0)) \
-__CPROVER_ensures(g_mac_calls <= 1 && g_hl_calls <= 1) \
-/* v2: what is authenticated */ \
+__CPROVER_ensures(g_mac_calls <= 1) \
+/* v2: what is authenticated.  Property scope: request PDUs built by the SDK (serialized with the request \
+ * tag/template) and received PDUs (their raw bytes).  A response PDU WITHOUT raw bytes (built locally, server \
+ * side) is outside the property: for it only "the MAC input is the serialization that was made" is stated. */ \
 __CPROVER_ensures(IMPLIES(t != NULL && t->ctx != NULL && t->ctx->options[OPT] == KSI_PDU_VERSION_2 && g_mac_calls == 1, \
 		key != NULL && hmac != NULL && t->header != NULL && (C06_IS_REQ(t) || C06_IS_RESP(t)) && \
-		g_mac_ctx == t->ctx && g_mac_alg == (int)algo_id && g_mac_key == key && g_hl_calls == 1 && g_hl_alg == (int)algo_id && \
+		g_mac_ctx == t->ctx && g_mac_alg == (int)algo_id && g_mac_key == key && g_hl_calls >= 1 && g_hl_alg == (int)algo_id && \
 		(t->raw != NULL \
-			? (g_ser_calls == 0 && g_mac_data == t->raw->data && g_mac_len == spec_pdu_v2_range_len(t->raw->data_len, g_hl)) \
+			? (g_ser_calls == 0 && g_mac_data == t->raw->data && spec_pdu_v2_range_defined(t->raw->data_len, g_hl) && \
+			   g_mac_len == spec_pdu_v2_range_len(t->raw->data_len, g_hl)) \
 			: (g_ser_calls == 1 && g_ser_res[0] == KSI_OK && g_ser_obj[0] == (const void *)t && \
-			   g_ser_tag[0] == (C06_IS_REQ(t) ? REQTAG : RESPTAG) && \
-			   g_ser_tmpl[0] == (C06_IS_REQ(t) ? REQTMPL : RESPTMPL) && \
-			   g_mac_data == g_ser_buf[0] && g_mac_len == spec_pdu_v2_range_len(g_ser_len[0], g_hl))))) \
-/* v2: the MAC is asked for whenever it can be */ \
+			   IMPLIES(C06_IS_REQ(t), g_ser_tag[0] == REQTAG && g_ser_tmpl[0] == REQTMPL) && \
+			   g_mac_data == g_ser_buf[0] && spec_pdu_v2_range_defined(g_ser_len[0], g_hl) && \
+			   g_mac_len == spec_pdu_v2_range_len(g_ser_len[0], g_hl))))) \
+/* v2: the MAC is asked for whenever the range is defined; a PDU shorter than the digest is refused */ \
 __CPROVER_ensures(IMPLIES(t != NULL && t->ctx != NULL && t->ctx->options[OPT] == KSI_PDU_VERSION_2 && \
 		key != NULL && hmac != NULL && t->header != NULL && (C06_IS_REQ(t) || C06_IS_RESP(t)) && \
-		(t->raw != NULL || (g_ser_calls == 1 && g_ser_res[0] == KSI_OK)), g_mac_calls == 1)) \
+		(t->raw != NULL || (g_ser_calls == 1 && g_ser_res[0] == KSI_OK)), \
+		g_hl_calls >= 1 && g_hl_alg == (int)algo_id && \
+		(spec_pdu_v2_range_defined(t->raw != NULL ? t->raw->data_len : g_ser_len[0], g_hl) \
+			? g_mac_calls == 1 : (g_mac_calls == 0 && __CPROVER_return_value == KSI_INVALID_FORMAT)))) \
 __CPROVER_ensures(IMPLIES(t != NULL && t->ctx != NULL && t->ctx->options[OPT] == KSI_PDU_VERSION_2 && \
 		!(key != NULL && hmac != NULL && t->header != NULL && (C06_IS_REQ(t) || C06_IS_RESP(t))), \
 		__CPROVER_return_value == KSI_INVALID_ARGUMENT && g_mac_calls == 0 && g_ser_calls == 0)) \
